@@ -1,9 +1,9 @@
 #!/bin/sh
 # usage: scripts/seed_sweep.sh [name ...]  — tries every seeded mutation (or the named ones) against the check of its property on a
 # private copy of /repo with a private build cache (so /repo itself stays untouched); writes seeded/SWEEP.md.
-cd /verif || exit 2
-COPY=/var/tmp/blocv-sweep/repo; CACHE=/var/tmp/blocv-sweep/cache
-mkdir -p /var/tmp/blocv-sweep; rm -rf "$COPY"; mkdir -p "$COPY" "$CACHE"
+V=$(cd "$(dirname "$0")/.." && pwd); cd "$V" || exit 2
+W=/var/tmp/blocv-sweep-$$; COPY=$W/repo; CACHE=$W/cache
+mkdir -p "$COPY" "$CACHE"
 git -C /repo archive HEAD | tar -x -C "$COPY"
 ( cd "$COPY" && git init -q && git add -A && git -c user.email=x@x -c user.name=x commit -qm base )
 NAMES="$*"; [ -z "$NAMES" ] && NAMES=$(ls seeded | grep -E '^C[0-9]+-m[0-9]+$')
@@ -11,12 +11,13 @@ OUT=seeded/SWEEP.md
 [ -z "$*" ] && echo "| seed | check | applies | result | first report |" > $OUT && echo "|---|---|---|---|---|" >> $OUT
 for n in $NAMES; do
   P=${n%%-*}
-  if ! git -C "$COPY" apply "/verif/seeded/$n/patch.diff" 2>/dev/null; then echo "| $n | $P | NO | - | patch does not apply to HEAD |" >> $OUT; continue; fi
+  if ! git -C "$COPY" apply "$V/seeded/$n/patch.diff" 2>/dev/null; then echo "| $n | $P | NO | - | patch does not apply to HEAD |" >> $OUT; continue; fi
   VERIF_REPO="$COPY" VERIF_CACHE="$CACHE" ./check $P --tier quick > /tmp/sweep_$n.out 2>&1; rc=$?
   git -C "$COPY" checkout -- . ; git -C "$COPY" clean -fdq
   first=$(grep -A1 '^VIOLATION' /tmp/sweep_$n.out | tail -1 | cut -c1-160 | tr '|' '/')
   echo "| $n | $P | yes | $([ $rc = 1 ] && echo CAUGHT || echo "MISSED rc=$rc") | $first |" >> $OUT
+  echo "RESULT $n $P $([ $rc = 1 ] && echo CAUGHT || echo "MISSED rc=$rc") $first"
 done
-rm -rf /var/tmp/blocv-sweep
-git -C /verif checkout -- evidence 2>/dev/null
+rm -rf "$W"
+git -C "$V" checkout -- evidence 2>/dev/null
 echo done
